@@ -144,8 +144,13 @@ static void world_gen(Rng &r, Plan &p, Tier tier, uint64_t index)
 	p.cfg["allocfaults"] = Val((int64_t)allocfaults);
 	auto push = [&](Step s) {
 		s.uid = uid++;
-		if (allocfaults && (s.op == "DELIVER" || s.op == "GARBAGE" || s.op == "ISSUE") && r.chance(1, 4)) {
-			s.set("failalloc", r.chance(1, 2) ? r.range(1, 30) : r.range(1, 80));
+		if (allocfaults && (s.op == "DELIVER" || s.op == "GARBAGE" || s.op == "ISSUE") && r.chance(1, 3)) {
+			// the k-th request counted from the start of the call, or (a third of the time) from its end: the last
+			// requests of a verify or generate are the signature, DER and output buffers
+			if (r.chance(1, 3))
+				s.set("failend", r.range(1, 5));
+			else
+				s.set("failalloc", r.chance(2, 3) ? r.range(1, 40) : r.range(1, 90));
 			if (r.chance(1, 5))
 				s.set("failfrom", 1);
 		}
@@ -1277,7 +1282,19 @@ static void do_issue_once(World &w, const Step &s, bool keep)
 	int pin = pinned_alg(p.has_key, p.key_alg, p.eff_explicit);
 	const AlgInfo *pa = pin > 0 ? alg_by_id(pin) : NULL;
 	int64_t t0 = g_clock.now();
-	GenerateOut go = lib_generate(ctx, p.bld, true, keep ? s.I("failalloc") : 0, keep && s.I("failfrom") != 0);
+	int64_t gen_fail_at = keep ? s.I("failalloc") : 0;
+	if (keep && s.I("failend") > 0) {
+		int64_t save = g_clock.base;
+		GenerateOut dry = lib_generate(ctx, p.bld, false);
+		g_clock.base = save;
+		if (!dry.ok)
+			jwt_builder_error_clear(p.bld);
+		gen_fail_at = (int64_t)dry.alloc_reqs - s.I("failend") + 1;
+		if (gen_fail_at < 1)
+			gen_fail_at = 0;
+		ctx.count("probe:alloc_fault_counted_from_the_end_of_the_call");
+	}
+	GenerateOut go = lib_generate(ctx, p.bld, true, gen_fail_at, keep && s.I("failfrom") != 0);
 	bool faulted = go.faults_fired > 0;
 	if (go.tainted) {
 		// the failing request fell inside json_dumps / a jansson parse (known finding under C17): not judged, not delivered
@@ -1507,7 +1524,7 @@ static void do_refissue(World &w, const Step &s)
 
 // ---------------------------------------------------------------- DELIVER / GARBAGE
 static void judge_delivery(World &w, Party &v, int vi, const std::string &tok, const Msg *src, bool pristine, bool destroys, bool encoding_level,
-			   const std::string &faults_in, int64_t fail_at = 0, bool fail_from = false, bool cb_acts = true, bool noclear = false)
+			   const std::string &faults_in, int64_t fail_at = 0, bool fail_from = false, bool cb_acts = true, bool noclear = false, int64_t fail_end = 0)
 {
 	Ctx &ctx = w.ctx;
 	set_provider(v.prov);
@@ -1523,6 +1540,16 @@ static void judge_delivery(World &w, Party &v, int vi, const std::string &tok, c
 	}
 	if (v.cb)
 		v.cb->capture = pristine && src && src->from_builder;
+	if (fail_end > 0) {
+		// count the requests of this very call first (a verify leaves nothing behind that the next one could see)
+		VerifyOut dry = lib_verify(ctx, v.chk, tok.c_str(), false);
+		if (dry.ret != 0)
+			jwt_checker_error_clear(v.chk);
+		fail_at = (int64_t)dry.alloc_reqs - fail_end + 1;
+		if (fail_at < 1)
+			fail_at = 0;
+		ctx.count("probe:alloc_fault_counted_from_the_end_of_the_call");
+	}
 	VerifyOut vo = lib_verify(ctx, v.chk, tok.c_str(), true, fail_at, fail_from);
 	bool acc = vo.ret == 0;
 	// Under an injected allocation failure every "accepted only if" monitor stays in force (a failed allocation is no
@@ -1852,7 +1879,7 @@ static void do_deliver(World &w, const Step &s, bool garbage)
 		if (tp.has2 && b64_decode_lenient(tp.seg[2], sg) && sg.size() == 2 * w2 && (sg[0] & 0x80) && (sg[w2] & 0x80))
 			ctx.count(strf("probe:ec_signature_with_longest_der_encoding_delivered:%s:%s", vk->crv.c_str(), prov_name(v.prov)));
 	}
-	judge_delivery(w, v, vi, tok, src, pristine, destroys, enc, faults, s.I("failalloc"), s.I("failfrom") != 0, s.I("cbpassive") == 0, s.I("noclear") != 0);
+	judge_delivery(w, v, vi, tok, src, pristine, destroys, enc, faults, s.I("failalloc"), s.I("failfrom") != 0, s.I("cbpassive") == 0, s.I("noclear") != 0, s.I("failend"));
 }
 
 // ---------------------------------------------------------------- executor
